@@ -1119,6 +1119,7 @@ pub fn c10_big_records(tag: &str) -> Vec<Vec<u8>> {
         "all-S5-le-5" => crate::enumr::strings(crate::enumr::S5, 0, 5),
         "ten-thousand" => (0..10_050usize).map(|i| long_record(3 + i % 5, i as u64)).collect(),
         "seventy-thousand" => (0..70_000usize).map(|i| long_record(3 + i % 5, i as u64)).collect(),
+        "hundred-thousand" => (0..100_001usize).map(|i| long_record(3 + i % 5, i as u64)).collect(),
         "repeating" => crate::vecs::repeating_records(),
         "long-records" => (0..12u64).map(|i| long_record(20_000, 100 + i)).collect(),
         _ => panic!("unknown record set"),
@@ -1188,6 +1189,17 @@ pub fn c10_configs(ctx: &mut Ctx) {
                         c10_free(ctx, &MinCase { threads, w, m: mm, records: pool[..n].to_vec() }, &format!("ten-thousand:{n}"));
                         ctx.rep.count("cases.size_boundaries", 1);
                     }
+                }
+            }
+        }
+    }
+    // record counts at round decimal numbers
+    {
+        let pool = c10_big_records("hundred-thousand");
+        for &nrec in crate::enumr::DEC_COUNTS.iter() {
+            for (mm, w, threads) in [(2usize, 0usize, 3usize), (2, 3, 1)] {
+                if sh.mine() {
+                    c10_free(ctx, &MinCase { threads, w, m: mm, records: pool[..nrec].to_vec() }, &format!("hundred-thousand:{nrec}"));
                 }
             }
         }
@@ -1282,6 +1294,7 @@ pub fn c05_record_set(tag: &str) -> Vec<Vec<u8>> {
         "five-hundred" => gen(500),
         "five-thousand" => gen(5000),
         "seventy-thousand" => gen(70_000),
+        "hundred-thousand" => gen(100_001),
         "repeating" => crate::vecs::repeating_records(),
         "long-first" => {
             let mut v = vec![crate::enumr::fill(b"ACGGTCA", 300_000)];
@@ -1485,6 +1498,18 @@ pub fn c05_lattice(ctx: &mut Ctx) {
             for (writer, threads, limit) in [("mmap", 3usize, 4usize << 30), ("batch", 1, 4 << 30), ("batch", 4, 4 << 30), ("batch", 4, 20_000), ("batch", 2, nrec * 4)] {
                 if sh.mine() {
                     c05_config(ctx, "seventy-thousand", &recs[..nrec], 2, "fasta", threads, limit, writer, nrec % 2 == 1, " ");
+                    n += 1;
+                }
+            }
+        }
+    }
+    // record counts at round decimal numbers
+    {
+        let recs = c05_record_set("hundred-thousand");
+        for &nrec in crate::enumr::DEC_COUNTS.iter() {
+            for (writer, threads, limit) in [("mmap", 3usize, 4usize << 30), ("batch", 1, 4 << 30), ("batch", 4, 4 << 30), ("batch", 3, 30_000)] {
+                if sh.mine() {
+                    c05_config(ctx, "hundred-thousand", &recs[..nrec], 2, "fasta", threads, limit, writer, nrec % 2 == 1, " ");
                     n += 1;
                 }
             }
